@@ -750,3 +750,10 @@ func VerifCraftRevealSig(c *Conversation, block []byte) ([]byte, bool) {
 	}
 	return append([]byte{}, msg...), true
 }
+
+// VerifAdvanceOurDHKey moves the conversation on to a fresh DH key pair without waiting for the peer
+// to acknowledge the current one: the next data message goes out under the key announced in the
+// previous one. A receiver accepts that (sender key id == their current key id rotates their key).
+func VerifAdvanceOurDHKey(c *Conversation) error {
+	return c.keys.generateNewDHKeyPair(c.rand())
+}
